@@ -552,15 +552,19 @@ class Typer:
         for n, nf in f.nested.items():
             env[n] = frozenset([('func', nf, ctx.recv)])
         self.own_nodes(f)
+        extra = [(var, frozenset(ts)) for (k, var), ts in self.local_extra.items() if k == ctx.key]
         for _ in range(3):
             changed = False
             for node in f._own_bind:
                 changed |= self._bind_stmt(node, ctx, env)
+            # containers filled in place (d[k] = v, l.append(v)): element types count before the loops over them are bound
+            for var, ts in extra:
+                new_ = merge(env.get(var, EMPTY), ts)
+                if new_ != env.get(var, EMPTY):
+                    env[var] = new_
+                    changed = True
             if not changed:
                 break
-        for (k, var), ts in self.local_extra.items():
-            if k == ctx.key:
-                env[var] = merge(env.get(var, EMPTY), frozenset(ts))
         self._env_stack.discard(ctx)
         return env
 
